@@ -312,7 +312,7 @@ type ClientFut = Pin<Box<dyn Future<Output = Result<ClientPair, h3::error::Conne
 
 fn build_server(net: &NetRef, c: &Cfg) -> Poll<Result<h3::server::Connection<SimConn, Bytes>, h3::error::ConnectionError>> {
     let mut f = server_future(net, c);
-    poll_once(&mut f)
+    poll_settled(&mut f)
 }
 
 /// the future of `builder.build(conn)` with exactly the builder calls named on the line
@@ -347,7 +347,7 @@ type ClientPair = (h3::client::Connection<SimConn, Bytes>, h3::client::SendReque
 
 fn build_client(net: &NetRef, c: &Cfg) -> Option<Poll<Result<ClientPair, h3::error::ConnectionError>>> {
     let mut f = client_future(net, c)?;
-    Some(poll_once(&mut f))
+    Some(poll_settled(&mut f))
 }
 
 fn client_future(net: &NetRef, c: &Cfg) -> Option<ClientFut> {
@@ -382,7 +382,7 @@ const CFGW_ROUNDS: usize = 96;
 fn drive_under_backpressure<T>(net: &NetRef, server: bool, pat: &[usize], f: &mut Pin<Box<dyn Future<Output = T>>>) -> Poll<T> {
     let ctrl_id: u64 = if server { 3 } else { 2 };
     // no stream has write credit: the first poll opens the streams and writes nothing
-    let mut r = poll_once(f);
+    let mut r = poll_settled(f);
     let others: Vec<u64> = net.borrow().streams.keys().copied().filter(|id| *id != ctrl_id).collect();
     for id in others {
         net.borrow_mut().set_write_credit(id, UNLIMITED);
@@ -390,7 +390,7 @@ fn drive_under_backpressure<T>(net: &NetRef, server: bool, pat: &[usize], f: &mu
     let mut i = 0;
     while r.is_pending() && i < CFGW_ROUNDS {
         net.borrow_mut().grant_write(ctrl_id, pat[i % pat.len()]);
-        r = poll_once(f);
+        r = poll_settled(f);
         i += 1;
     }
     r
@@ -486,7 +486,7 @@ impl Conn {
         match self {
             Conn::Server(c) => {
                 let mut f = Box::pin(c.accept());
-                let _ = poll_once(&mut f);
+                let _ = poll_settled(&mut f);
             }
             Conn::Client((c, _)) => {
                 let _ = cx_poll(|cx| c.poll_close(cx));
